@@ -47,9 +47,16 @@ pub fn character_string_value(input: Input<'_>) -> ParserResult<'_, ASN1Value> {
 /// line in the "cstring" have no significance.
 pub fn cstring(input: Input<'_>) -> ParserResult<'_, String> {
     map(raw_string_literal, |s| {
+        // Spacing characters around the end of a line and the end of line itself
+        // are not part of the string
+        let mut lines = s.split(['\n', '\u{b}', '\u{c}', '\r']);
+        let mut joined = String::from(lines.next().unwrap_or_default());
+        for line in lines {
+            joined.truncate(joined.trim_end_matches([' ', '\t']).len());
+            joined.push_str(line.trim_start_matches([' ', '\t']));
+        }
         // Replace any escaped quote with a single `"`
-        // TODO: Remove whitespace around newlines in multiline strings.
-        s.replace("\"\"", "\"")
+        joined.replace("\"\"", "\"")
     })
     .parse(input)
 }
